@@ -6,6 +6,10 @@ ROOT = os.path.dirname(os.path.dirname(os.path.abspath(__file__)))
 REPO = os.environ.get("VERIF_REPO", "/repo")
 CACHE = os.path.join(ROOT, ".cache")
 SPEC = os.path.join(ROOT, "spec")
+# development aids for running several changed trees side by side (bin/seeded-run): where evidence / replays go and a
+# tag that keeps the scratch directories of concurrent runs apart.  Registered commands set neither.
+EVID = os.environ.get("VERIF_EVIDENCE", os.path.join(ROOT, "evidence"))
+WORK = os.path.join(CACHE, "work" + os.environ.get("VERIF_RUN_TAG", ""))
 NPROC = os.cpu_count() or 4
 TLA_CP = "/opt/veriftools/tla/tla2tools.jar:/opt/veriftools/tla/CommunityModules-deps.jar"
 
@@ -252,8 +256,8 @@ def write_evidence(pid, tier, level, coverage, assumptions, wall_s, violations, 
           "assumptions": assumptions, "wall_s": round(wall_s, 2), "violations": violations}
     if extra:
         ev.update(extra)
-    os.makedirs(os.path.join(ROOT, "evidence"), exist_ok=True)
-    p = os.path.join(ROOT, "evidence", pid + ".json")
+    os.makedirs(EVID, exist_ok=True)
+    p = os.path.join(EVID, pid + ".json")
     with open(p + ".tmp", "w") as fh:
         json.dump(ev, fh, indent=1, sort_keys=True)
         fh.write("\n")
@@ -262,7 +266,7 @@ def write_evidence(pid, tier, level, coverage, assumptions, wall_s, violations, 
 
 
 def replay_dir(pid, tag):
-    d = os.path.join(ROOT, "evidence", "replay", pid, tag)
+    d = os.path.join(EVID, "replay", pid, tag)
     os.makedirs(d, exist_ok=True)
     return d
 
